@@ -217,6 +217,8 @@ class MiniEval:
             return env[name]
         if name in self.globals:
             return self.globals[name]
+        if name in _BUILTIN_TYPES:
+            return _BUILTIN_TYPES[name]
         raise Unsupported(f'name {name!r} not in the evaluation environment')
 
     def expr(self, e: ast.expr, env: dict) -> Any:
@@ -431,6 +433,10 @@ class MiniEval:
                 return getattr(recv, f.attr)(*args, **kwargs)
             raise Unsupported(f'method call .{f.attr} on {type(recv).__name__}')
         raise Unsupported('call form')
+
+
+_BUILTIN_TYPES = {'list': list, 'set': set, 'dict': dict, 'tuple': tuple, 'str': str, 'int': int, 'float': float,
+                  'bool': bool, 'frozenset': frozenset, 'bytes': bytes, 'True': True, 'False': False, 'None': None}
 
 
 class _Break(Exception):
